@@ -193,6 +193,31 @@ REG["C07"] = {
     "not_decided": ["which lines the expectation regex accepts and how it splits them (C08)", "the exit-code regex", "CRLF handling of str::lines"],
 }
 
+REG["C08"] = {
+    "units": ["expectation"],
+    "thorough_extra": ["replay"],
+    "scope": "PARTIAL — the line grammar around the regular expression. ExpectationMaker::extract returns line_parts(line): a final `<ws>(<kind><quantifier>)` group whose kind is a registered "
+             "name (or empty) and that has a kind and/or a quantifier is the modifier, everything before it is the expression verbatim, an empty kind means `equal`; every other line -- also one "
+             "ending in `()` -- is an `equal` expectation for the whole line (lemma_mod_split_unique: the decomposition is unique, the regular expression has no choice). ExpectationMaker::parse: "
+             "`?` optional, `*` optional and repeated, `+` repeated; an error exactly when the registry refuses (kind, expression); the rule is what the registry makes of them; "
+             "ExpectationMaker::make carries flags and original text. Rule::to_expression_string returns render_spec (bare / ` (q)` / ` (escaped q)` / ` (kind q)`, and ` (equal)` for an "
+             "unquantified equal rule whose text ends like a modifier) and that rendering reads back (line_parts) as the same expression text, written kind and quantifier "
+             "(C08.render.reparses.*, lemma_c08_roundtrip). Index safety of captures[0..2] included.",
+    "assumptions": [
+        "REGEX: the initialiser of `captures` in extract() (to_expectation_regex()?.captures(line) + skip/filter_map/collect) is dropped and replaced by a trusted helper whose contract caps_ok states "
+        "what ^(.*?)(?:\\s\\(({names}|)?([*+?])?\\))?$ returns on a line without line feed; rule.rs::ends_in_modifier (same expression, static) is trusted with has_proper_mod. "
+        "Cross-checked BOUNDED in the thorough tier: all 299 600 lines over {a,space,(,),?,*,r,e} up to 6 characters against an independent reading of the grammar (replay c08 6)",
+        "lines contain no line feed (they come from str::lines); registered rule names are non-empty words without parentheses and quantifier characters (reg_wf; true of the default registry, read)",
+        "RuleRegistry (HashMap of fn pointers) is opaque: which names are registered and what a maker returns are uninterpreted; RuleRegistry::make fails for unregistered names and "
+        "RuleRegistry::default registers equal and escaped (read, not verified: axiom_default_registry); U+0020 is \\s (axiom_space_is_ws)",
+        "Escaper::escaped_printable / has_unprintable and Rule::unmake are uninterpreted here (C11 / C04 decide them); newline::trim_newlines is uninterpreted",
+        "format! helpers with ensures derived from the literal (R8')",
+    ],
+    "not_decided": ["which (kind, expression) pairs each rule maker accepts ('fails only when an explicitly marked regex or escaped expression is itself malformed': the makers call the regex crate / "
+                    "unescape)", "that the re-parsed rule 'matches the same line contents' (needs unmake ∘ make per rule and escaped_printable ∘ unescape: C11 covers the escaped kind only)",
+                    "rules other than the default registry's"],
+}
+
 VX_NOTE = ("Trusted: Verus/Z3; the extractor's rewrite rules (DESIGN §4.2, each firing is logged in evidence.rewrites_fired); "
            "prelude.rs shims and assume_specifications (mechanically scanned into evidence.trusted_base); "
            "machine integers are NOT idealised (usize overflow is an obligation).")
@@ -233,6 +258,10 @@ LEVELS["C06"] = {"category": "proof", "technique": "Verus postconditions on extr
     "text": "Unbounded proof over all lines / all documents (as sequences of lines) of the Markdown tokenizer: what is a fence, where a block ends, that every consumed line is in the returned token "
             "with its number, that all str slicing is on char boundaries. Partial: the parser on top of the tokenizer (titles, body grammar, YAML) is out of reach and stated as not decided.",
     "design_ref": "DESIGN.md §5 C06", "note": VX_NOTE}
+LEVELS["C08"] = {"category": "proof", "technique": "Verus postconditions on extracted ExpectationMaker::extract/parse/make and Rule::to_expression_string; uniqueness and round-trip lemmas",
+    "text": "Unbounded proof over all lines (without line feed) and all registries with plain-word names: how a line is split into expression / kind / quantifier, what the quantifier means, "
+            "and that the canonical rendering reads back as the same parts. Partial: the regular expression itself is a trusted contract (cross-checked bounded), rule makers are opaque.",
+    "design_ref": "DESIGN.md §5 C08", "note": VX_NOTE}
 LEVELS["C13"] = {"category": "proof", "technique": "Verus postconditions on extracted newline::replace_crlf and TestCase::render_output",
     "text": "Unbounded proof over all byte strings of the two documented output transformations (CRLF -> LF unless keep_crlf; ANSI stripping only when asked). "
             "Partial: command transmission and byte-exact capture through bash/subprocess are out of reach and stated as not decided.",
@@ -243,7 +272,6 @@ LEVELS["C07"] = {"category": "proof", "technique": "Verus: LineParser methods an
     "design_ref": "DESIGN.md §5 C07", "note": VX_NOTE}
 
 NOT_APPLICABLE = [
-    {"property_id": "C08", "reason": "being built (quantifier round trip, partial) — not yet claimed"},
     {"property_id": "C09", "reason": "composition generate->parse->validate through format!-heavy rendering and the regex crate; contracts on the pieces in reach do not compose without a verified parser (DESIGN §10)"},
     {"property_id": "C10", "reason": "same composition plus MarkdownIterator; no contract within reach expresses byte-for-byte preservation through the regex-based tokenizer (DESIGN §10)"},
     {"property_id": "C12", "reason": "a property of bash executing bash_runner.template; no Rust function's postcondition can state it (DESIGN §10)"},
